@@ -120,8 +120,8 @@ pub fn stages_for(prop: &str, tier: Tier) -> Option<Vec<Stage>> {
     let q = tier == Tier::Quick;
     let st = |world: &'static str, quick: u64, thorough: u64| Stage { world, runs: runs_override(if q { quick } else { thorough }), sweep: false };
     Some(match prop {
-        "C13" => vec![st("parser", 4_000_000, 40_000_000)],
-        "C14" => vec![st("parser", 4_000_000, 40_000_000)],
+        "C13" => vec![st("parser", 4_000_000, 200_000_000)],
+        "C14" => vec![st("parser", 4_000_000, 200_000_000)],
         "C01" => vec![
             sw("splits"), sw("chars"), sw("slices_u8"), sw("slices_zst"), sw("slices_big"), sw("slices_odd"), sw("ranges_char"), sw("ranges_u8"), sw("ranges_i128"),
             st("parser", 400_000, 8_000_000),
@@ -139,20 +139,20 @@ pub fn stages_for(prop: &str, tier: Tier) -> Option<Vec<Stage>> {
         ],
         "C15" | "C11" => {
             let sweep_len = <crate::worlds::byvalue::ByValueWorld as World>::sweep_len();
-            vec![Stage { world: "byvalue", runs: sweep_len, sweep: true }, st("byvalue", 3_000_000, 40_000_000)]
+            vec![Stage { world: "byvalue", runs: sweep_len, sweep: true }, st("byvalue", 3_000_000, 150_000_000)]
         }
-        "C07" => vec![sw("chars"), st("chars", 6_000_000, 60_000_000)],
-        "C06" => vec![sw("splits"), st("splits", 6_000_000, 60_000_000)],
+        "C07" => vec![sw("chars"), st("chars", 6_000_000, 300_000_000)],
+        "C06" => vec![sw("splits"), st("splits", 6_000_000, 300_000_000)],
         "C09" => vec![
             sw("ranges_u8"), sw("ranges_i8"), sw("ranges_char"), sw("ranges_u16"), sw("ranges_i16"), sw("ranges_u32"), sw("ranges_i32"),
             sw("ranges_u64"), sw("ranges_i64"), sw("ranges_u128"), sw("ranges_i128"), sw("ranges_usize"), sw("ranges_isize"),
-            st("ranges_u8", 1_200_000, 12_000_000), st("ranges_i8", 1_200_000, 12_000_000), st("ranges_char", 900_000, 9_000_000),
-            st("ranges_u16", 300_000, 3_000_000), st("ranges_i16", 300_000, 3_000_000), st("ranges_u32", 300_000, 3_000_000),
-            st("ranges_i32", 300_000, 3_000_000), st("ranges_u64", 300_000, 3_000_000), st("ranges_i64", 300_000, 3_000_000),
-            st("ranges_u128", 300_000, 3_000_000), st("ranges_i128", 300_000, 3_000_000), st("ranges_usize", 300_000, 3_000_000),
-            st("ranges_isize", 300_000, 3_000_000),
+            st("ranges_u8", 1_200_000, 40_000_000), st("ranges_i8", 1_200_000, 40_000_000), st("ranges_char", 900_000, 40_000_000),
+            st("ranges_u16", 300_000, 12_000_000), st("ranges_i16", 300_000, 12_000_000), st("ranges_u32", 300_000, 12_000_000),
+            st("ranges_i32", 300_000, 12_000_000), st("ranges_u64", 300_000, 12_000_000), st("ranges_i64", 300_000, 12_000_000),
+            st("ranges_u128", 300_000, 12_000_000), st("ranges_i128", 300_000, 12_000_000), st("ranges_usize", 300_000, 12_000_000),
+            st("ranges_isize", 300_000, 12_000_000),
         ],
-        "C08" => vec![sw("slices_u8"), sw("slices_zst"), sw("slices_big"), sw("slices_odd"), st("slices_u8", 4_000_000, 40_000_000), st("slices_zst", 1_500_000, 15_000_000), st("slices_big", 1_500_000, 15_000_000), st("slices_odd", 1_500_000, 15_000_000)],
+        "C08" => vec![sw("slices_u8"), sw("slices_zst"), sw("slices_big"), sw("slices_odd"), st("slices_u8", 4_000_000, 160_000_000), st("slices_zst", 1_500_000, 60_000_000), st("slices_big", 1_500_000, 60_000_000), st("slices_odd", 1_500_000, 60_000_000)],
         _ => return None,
     })
 }
